@@ -2,10 +2,10 @@
 # tools/hunt.sh <PROP> <campaign-regex> <first-seed> <count> [tier]: repeats one sub-campaign over many seeds until a run fails, keeping the failing
 # run's directories (server data under /dev/shm, logs under .run) for diagnosis. Development aid for schedule-dependent failures.
 P=$1; ONLY=$2; S0=$3; N=$4; TIER=${5:-quick}
-export VERIF_EVIDENCE_DIR=$(pwd)/.run/hunt-evidence VERIF_INSTANCE_OFFSET=${VERIF_INSTANCE_OFFSET:-40} VERIF_KEEPDIR=1
+export VERIF_EVIDENCE_DIR=$(pwd)/.run/hunt-evidence VERIF_INSTANCE_OFFSET=${VERIF_INSTANCE_OFFSET:-40} VERIF_KEEPDIR=1 VERIF_RUNROOT=/dev/shm/hunt-$P-$$
 for s in $(seq $S0 $((S0+N-1))); do
   VERIF_ONLY="$ONLY" VERIF_SEED=$s python3 vcheck.py run $P --tier $TIER --keep > .hunt-$P-$s.log 2>&1; rc=$?
   echo "HUNT prop=$P seed=$s exit=$rc $(grep -m1 -E '^(VIOLATION|INCONCLUSIVE)' .hunt-$P-$s.log | cut -c1-160)"
-  if [ $rc -eq 1 ]; then echo "kept: $(ls -d /dev/shm/verif-* 2>/dev/null | tr '\n' ' ')"; exit 1; fi
-  rm -rf /dev/shm/verif-* .run/$P-* .hunt-$P-$s.log
+  if [ $rc -eq 1 ]; then echo "kept: $VERIF_RUNROOT"; exit 1; fi
+  rm -rf $VERIF_RUNROOT .run/$P-* .hunt-$P-$s.log
 done
